@@ -1034,3 +1034,39 @@ func stripComments(src string) string {
 	}
 	return sb.String()
 }
+
+// Errs is the profile for C07: many error-capable call sites.
+func Errs() Profile {
+	p := Broad()
+	p.Name = "errs"
+	p.Mechs = map[string]int{"same": 10, "conv": 40, "map": 25, "nested": 15, "skip": 3, "none": 3, "getter": 5, "ptrnested": 4}
+	p.PErr = 0.85
+	p.PHooks = 0.6
+	p.ConvErrInNoErr = 0.1
+	p.MinFields, p.MaxFields = 3, 8
+	return p
+}
+
+// Hooks is the profile for C10.
+func Hooks() Profile {
+	p := Broad()
+	p.Name = "hooks"
+	p.Mechs = map[string]int{"same": 40, "diff": 5, "nested": 10, "map": 10, "conv": 10, "none": 10, "skip": 5, "slice": 5, "literal": 5}
+	p.PHooks = 1.0
+	p.PReverse = 0
+	p.PExtras = 0.5
+	p.MinFields, p.MaxFields = 2, 5
+	return p
+}
+
+// Slices is the profile for C16.
+func Slices() Profile {
+	p := Broad()
+	p.Name = "slices"
+	p.Mechs = map[string]int{"slice": 70, "same": 8, "nested": 10, "getter": 4, "skip": 2, "ptrnested": 3}
+	p.Types = []string{"slice", "named-slice", "int", "string"}
+	p.PToggle = 0.5
+	p.PHooks = 0.05
+	p.MinFields, p.MaxFields = 3, 8
+	return p
+}
